@@ -20,6 +20,7 @@ def run(ctx: Ctx) -> Collector:
     _iteration(ctx, c, holder, heap)
     _max_advance_flow(ctx, c)
     _heap_discipline(ctx, c, holder, heap)
+    _init_before_foreign_read(ctx, c)
     return c
 
 
@@ -80,7 +81,9 @@ def _iteration(ctx: Ctx, c: Collector, holder: str, heap: str) -> None:
     ptime = ("attr", ("attr", sim, "progress"), "time")
     ne = T.canon_cmp("!=", cur, ptime)
     eq = T.canon_cmp("==", cur, ptime)
-    guards = [e for e in s.of_kind("raise") if POP.idx < e.idx < STEP.idx and any(T.guard_term(x) == ne for x in e.guards)]
+    helper_events = inlined_events(ctx, s, POP.idx, STEP.idx)
+    between = [e for e in s.of_kind("raise") if POP.idx < e.idx < STEP.idx] + [e for e in helper_events if e.kind == "raise"]
+    guards = [e for e in between if any(T.guard_term(x) == ne for x in e.guards)]
     pr = []
     if not guards:
         pr.append("no check `current_step != progress.time -> SimulationError` between the pop and the step")
@@ -88,8 +91,11 @@ def _iteration(ctx: Ctx, c: Collector, holder: str, heap: str) -> None:
         r = guards[0]
         if not is_simulation_error(ctx, r.term) or not names_sim(r.term, sim):
             pr.append("the stale-step error is not a SimulationError naming the simulator")
-        if not any(T.guard_term(x) == eq for x in STEP.guards):
+        via = r.extra.get("via")
+        if via is None and not any(T.guard_term(x) == eq for x in STEP.guards):
             pr.append("the step is not guarded by current_step == progress.time")
+        if via is not None and (r.guards[:len(STEP.guards)] != STEP.guards or [x for x in r.guards[len(STEP.guards):] if T.guard_term(x) != ne]):
+            pr.append("the stale-step check (in a helper) is conditional")
     c.add("P2", SIMPROC, "stale-step-guard", VIOLATED if pr else DISCHARGED, "; ".join(pr), L(POP))
 
     # P3: inputs and max_advance computed after the pop, no suspension before the step call
@@ -160,7 +166,8 @@ def _iteration(ctx: Ctx, c: Collector, holder: str, heap: str) -> None:
 
 def _loop_guard(ctx, c, s, fi, sim, world, cur, POP, STEP) -> None:
     bound = ("attr", world, "max_loop_iterations")
-    cands = [e for e in s.of_kind("raise") if POP.idx < e.idx < STEP.idx and T.contains(e.guards, bound)]
+    cands = [e for e in s.of_kind("raise") if POP.idx < e.idx < STEP.idx and T.contains(e.guards, bound)] + \
+            [e for e in inlined_events(ctx, s, POP.idx, STEP.idx) if e.kind == "raise" and T.contains(e.guards, bound)]
     name = "max_loop_iterations-guard"
     if not cands:
         c.bad("R12", SIMPROC, name, "no check of the sub-step counters against world.max_loop_iterations between the pop and the step", ctx.loc(fi, POP))
@@ -210,7 +217,7 @@ def _loop_guard(ctx, c, s, fi, sim, world, cur, POP, STEP) -> None:
         verdict_unknown = True
     if not is_simulation_error(ctx, r.term) or not names_sim(r.term, sim):
         pr.append("the loop-guard error is not a SimulationError naming the simulator")
-    if not any(T.guard_term(x) == T.negate(gt) for x in STEP.guards):
+    if r.extra.get("via") is None and not any(T.guard_term(x) == T.negate(gt) for x in STEP.guards):
         pr.append("the step is not guarded by the negated loop test")
     if pr:
         c.bad("R12", SIMPROC, name, "; ".join(pr), ctx.loc(fi, r))
@@ -296,3 +303,78 @@ def _heap_discipline(ctx: Ctx, c: Collector, holder: str, heap: str) -> None:
 
 from ..report import VIOLATED, DISCHARGED  # noqa: E402
 from ..terms import call  # noqa: E402
+
+
+# --------------------------------------------------------------------------- R3/INIT
+def _init_before_foreign_read(ctx: Ctx, c: Collector) -> None:
+    """Every SimRunner field that the scheduler reads through a reference that may denote a
+    *foreign* simulator (a loop variable over world.sims / a connection table, or the parameter
+    of a function that is called with such a variable) is initialised before any simulator
+    process runs (constructor, World.start/run, or scheduler.run ahead of the process creation):
+    another simulator's process can get there before the owner's process has executed its first
+    statement (a process that never really suspends performs a whole step first)."""
+    from .sites import typer_of
+    from ..types import is_cls
+    RUNNER = "mosaik.simmanager.SimRunner"
+    typer = typer_of(ctx.prog)
+    init: set = set()
+    ifi = ctx.func(RUNNER + ".__init__")
+    for e in summarise(ctx.prog, ifi).of_kind("store"):
+        if e.term[1][0] == "attr" and e.term[1][1] == T.var(ifi.params[0]):
+            init.add(e.term[1][2])
+    for qn in ("mosaik.scenario.World.start", "mosaik.scenario.World.run", "mosaik.scheduler.run"):
+        fi = ctx.func(qn)
+        s = summarise(ctx.prog, fi)
+        spawn = min((e.idx for e in s.of_kind("call") if T.contains(e.term, T.glob(SIMPROC))), default=10 ** 9)
+        for e in s.of_kind("store"):
+            if e.idx < spawn and e.term[1][0] == "attr" and is_cls(typer._type_of(e.term[1][1], typer.event_env(fi, e)), RUNNER):
+                init.add(e.term[1][2])
+    # functions whose SimRunner parameter is passed a loop variable over all simulators somewhere
+    foreign_params = set()
+    for fi in ctx.prog.all_functions():
+        if fi.module.name != "mosaik.scheduler":
+            continue
+        s = summarise(ctx.prog, fi)
+        for e in s.of_kind("call"):
+            f = e.term[1]
+            if f[0] == "glob" and f[1] in ctx.prog.functions and e.iters:
+                loopvars = set()
+                for it in e.iters:
+                    loopvars |= T.free_vars(it[1])
+                callee = ctx.prog.functions[f[1]]
+                for p, a in zip(callee.params, e.term[2]):
+                    if a[0] == "var" and a[1] in loopvars:
+                        foreign_params.add((callee.qualname, p))
+    n = 0
+    bad = []
+    for fi in ctx.prog.all_functions():
+        if fi.module.name != "mosaik.scheduler":
+            continue
+        s = summarise(ctx.prog, fi)
+        for e in s.events:
+            env = typer.event_env(fi, e)
+            loopvars = set()
+            for it in e.iters:
+                loopvars |= T.free_vars(it[1])
+            terms = (e.term,) + tuple(g[1] for g in e.guards)
+            for b, f in T.field_reads(terms):
+                if b[0] != "var" or not is_cls(typer._type_of(b, env), RUNNER):
+                    continue
+                foreign = b[1] in loopvars or (fi.qualname, b[1]) in foreign_params
+                if not foreign:
+                    continue
+                if e.kind == "store" and e.term[1] == ("attr", b, f) and not T.contains(e.term[2], ("attr", b, f)):
+                    continue
+                n += 1
+                if f not in init and ctx.prog.field_annotation(RUNNER, f) is not None:
+                    bad.append((fi, e, b, f))
+    seen = set()
+    for fi, e, b, f in bad:
+        if (fi.qualname, f) in seen:
+            continue
+        seen.add((fi.qualname, f))
+        c.bad("INIT", fi.qualname, f"foreign read of SimRunner.{f}",
+              f"{T.show(b)}.{f} is read for a simulator that may not be the running one, but {f} is only assigned once that simulator's own process has started: "
+              "if another process gets here first (e.g. an in-process simulator whose step never suspends) the attribute does not exist (AttributeError)", ctx.loc(fi, e))
+    c.ok("INIT", "mosaik.scheduler", "fields read through foreign simulator references are initialised before the processes start", f"{n} foreign field reads, {len(init)} fields initialised early", "")
+    c.info["foreign_field_reads"] = n
